@@ -7,7 +7,7 @@ From LV Require Import Base.Bytes Model.Obj Model.DocQ Model.PageTree Model.Trav
   Proofs.EditProofsDelete Proofs.EditProofsKF Proofs.EditProofsContent Model.EditV0 Model.Renumber
   Proofs.EditProofsBm Proofs.EditProofsOutline Proofs.EditProofsContent2 Proofs.EditProofsDecode Proofs.EditProofsRes
   Proofs.EditProofsEx2 Proofs.EditProofsCount Model.StreamFilt.
-From LV Require Import Gen.Consts Spec.Dfs Spec.DfsCounts Spec.PageTreeEdit Proofs.EditProofsTree Proofs.EditProofsTree2 Proofs.EditProofsRes2.
+From LV Require Import Gen.Consts Spec.Dfs Spec.DfsCounts Spec.PageTreeEdit Proofs.EditProofsTree Proofs.EditProofsTree2 Proofs.EditProofsRes2 Proofs.EditProofsFrame.
 From LV Require Proofs.PageTreeProofs.
 From LV Require Proofs.FilterProofsDict.
 From LV Require Model.Outline Spec.OutlineSpec Proofs.OutlineProofs.
@@ -412,6 +412,33 @@ Theorem C11_resources_example : ~ category_indirect ex_doc (3, 0)%N K_XObject.
 Proof. exact res_example. Qed.
 
 (* ------------------------------------------------------------------------------------------ *)
+(* Frames of the remaining operations, on EVERY object graph and whatever the call returns (ok, error or panic): "no operation
+   other than an explicit deletion removes or alters an object".
+   Content operations (change_content_stream, change_page_content, add_page_contents, add_to_page_content): trailer unchanged;
+   the cursor stays or moves by exactly one; NO object is removed; the only id that can appear is max_id + 1 (the fresh content
+   stream); at most ONE existing object differs afterwards (the page dictionary whose Contents entry is set, or the stream
+   rewritten in place). *)
+Theorem C11_frame_content_ops :
+  forall O d o, is_content_op o = true ->
+    let d' := fst (step O d o) in
+    d_trailer d' = d_trailer d /\
+    (d_max_id d' = d_max_id d \/ d_max_id d' = (d_max_id d + 1)%N) /\
+    (forall y, has_obj (d_objects d) y -> has_obj (d_objects d') y) /\
+    (forall y, has_obj (d_objects d') y -> has_obj (d_objects d) y \/ y = ((d_max_id d + 1)%N, 0%N)) /\
+    exists t, forall y, y <> ((d_max_id d + 1)%N, 0%N) -> y <> t -> lookup (d_objects d') y = lookup (d_objects d) y.
+Proof. exact content_ops_frame. Qed.
+
+(* remove_object (annotation), get_or_create_resources: only dictionary objects can differ, and they stay dictionaries;
+   compress, decompress (also when a filter panics half-way): only stream objects can differ, and they stay streams;
+   get_page_content: nothing.  Trailer, cursor and the set of object ids are unchanged in all five. *)
+Theorem C11_frame_keeping_ops :
+  forall O d o P, keeps_kind o = Some P ->
+    let d' := fst (step O d o) in
+    d_trailer d' = d_trailer d /\ d_max_id d' = d_max_id d /\ map fst (d_objects d') = map fst (d_objects d) /\
+    forall y, lookup (d_objects d') y = lookup (d_objects d) y \/ (P (lookup (d_objects d) y) /\ P (lookup (d_objects d') y)).
+Proof. exact keeps_frame. Qed.
+
+(* ------------------------------------------------------------------------------------------ *)
 (* I_count.  (a) On ANY object graph: the Count bookkeeping of delete_pages along the Parent chain.  [anc_chain m r l]: l is
    the chain of dictionary objects the loop meets when it follows Parent from r in m (it ends at a missing Parent, a
    non-reference Parent or a non-dictionary), none with Count = i64::MIN.  On a chain of pairwise different objects the loop
@@ -572,6 +599,8 @@ Print Assumptions C11_resources_add_xobject_alias_witness.
 Print Assumptions C11_resources_add_xobject_example.
 Print Assumptions C11_frame_resource_ops.
 Print Assumptions C11_resources_example.
+Print Assumptions C11_frame_content_ops.
+Print Assumptions C11_frame_keeping_ops.
 Print Assumptions C11_count_loop_chain.
 Print Assumptions C11_delete_pages_one_chain.
 Print Assumptions C11_count_example_partial.
